@@ -7,7 +7,7 @@ clauses of /repo/include/bee2/crypto/*.h).  This module is the engine:
 
   for every row, for rep in range(reps):
       base  = row.build(E, r)            a fully valid call (exact-size heap buffers, keys made by the library's own
-                                         generators on a deterministic brngCTR tape) and the list of single-argument
+                                         generators on a deterministic brngHMAC tape) and the list of single-argument
                                          violations with the class(es) the header lists for each
       case "valid"                       must return ERR_OK (otherwise Harness: the generator is wrong, not bee2)
       case per violation                 (1) return code in the documented class(es), never ERR_OK
@@ -49,9 +49,12 @@ def materialise(lib, args):
             ptr[a["n"]] = lib.mk_size(a["v"])
             outs[a["n"]] = (ptr[a["n"]], 8, (a["v"] & SIZE_MAX).to_bytes(8, "little"))
         elif k == "rngst":
-            st = lib.alloc(lib.brngCTR_keep())
-            lib.brngCTRStart(st, lib.mk(a["key"]), lib.mk(a["iv"]))
-            ptr[a["n"]] = st
+            ptr[a["n"]] = T.start_gen(lib, a["key"], a["iv"])
+        elif k == "prep":
+            # an object brought into a documented state by valid calls (e.g. an SM state after btokSMStart + CtrInc)
+            ptr[a["n"]] = a["f"](lib)
+            if a.get("outsize"):
+                outs[a["n"]] = (ptr[a["n"]], a["outsize"], None)
         elif k == "struct":
             # octet image with embedded pointers: fields = [(offset, argname-or-("fn", symbol)-or-int)]
             ptr[a["n"]] = None
@@ -145,13 +148,18 @@ def unit_rows(ctx):
                 continue
             lib.release()
             fname = call.get("fn", fn)
+            if P.get("only_valid"):
+                call["cases"] = []
             # the valid call itself
-            if ctx.case([fn, rep, "valid"], fn + ":valid"):
+            if call.get("novalid"):
+                ctx.classes[fn + ":valid"] += 0
+            elif ctx.case([fn, rep, "valid"], fn + ":valid"):
                 ret, got, touched, extra = execute(lib, fname, call["args"], call.get("post"))
                 okc = call.get("ok", ("ERR_OK",))
                 if errname(ret) not in okc:
                     raise Harness("%s: the row's valid call returned %s (rep %d)" % (fn, errname(ret), rep))
-                ctx.digest(ret, *[got[k] for k in sorted(got)])
+                # outputs holding addresses (protocol states) are not part of the transcript
+                ctx.digest(ret, *[got[k] for k in sorted(got) if k not in call.get("nodigest", ("state",))])
             for v in call["cases"]:
                 args = T.clone(call["args"])
                 v["mut"](args)
@@ -167,14 +175,18 @@ def unit_rows(ctx):
                     bad = "ERR_OK"
                 elif "ANY" not in exp and name not in exp:
                     bad = name
-                ctx.digest(ret, *[(k, touched[k]) for k in sorted(touched)])
+                # only the return code: what a failed call leaves in its outputs is not promised by any header and
+                # "written or not" is not observable independently of the canary value
+                ctx.digest(ret)
                 wr = sorted(k for k in touched if touched[k])
                 if wr and ret != 0:
                     touched_note["%s:%s" % (fn, v["arg"])] = 1
                 if bad is not None:
+                    # one report per (function, argument, wrong outcome): the key carries the first offending class in
+                    # the row's fixed sweep order, so the same defect always yields the same key
                     key = "%s:contract:%s:%s" % (fn, label, bad)
-                    if key not in reported:
-                        reported.add(key)
+                    if (fn, v["arg"], bad) not in reported:
+                        reported.add((fn, v["arg"], bad))
                         ctx.violation(key, "%s with %s returned %s; bee2 header: %s" % (
                             fn, label, name, v["quote"]),
                             {"function": fn, "violated": label, "expected": sorted(exp), "got": name,
@@ -184,7 +196,7 @@ def unit_rows(ctx):
                     ctx.classes["release-check"] += 1
                     lk = leaked(sec, got)
                     if lk:
-                        key = "%s:release:%s:plaintext-in-%s" % (fn, label, lk[0])
+                        key = "%s:release:plaintext-in-%s" % (fn, lk[0])
                         if key not in reported:
                             reported.add(key)
                             ctx.violation(key, "%s failed with %s but the output %s holds >= 8 octets of the true "
@@ -213,16 +225,18 @@ def jobs(tier, scale=1.0):
             n = min(step, reps - r0)
             js.append({"unit": "c09_args:unit_rows", "params": {"group": gname, "rows": rows, "reps": n, "rep0": r0}})
             r0 += n
+    # inventory: the valid call of every row once more in workers that cannot be taken down by a crashing violation
+    # (the statistics of a worker segment that ends in a crash are lost), so that "<function>:valid" is always observed
+    names = [fn for g in T.GROUPS for fn in g[1]]
+    for i in range(4):
+        js.append({"unit": "c09_args:unit_rows", "params": {"group": "inventory", "rows": names[i::4], "reps": 2, "rep0": 6000, "only_valid": True}})
     return js
 
 
-def required_classes():
-    out = []
-    for gname, rows, rq, rt in T.GROUPS:
-        for fn in rows:
-            out.append(fn + ":valid")
-    out += ["class:length", "class:release", "release-check"]
-    return tuple(out)
+ROWS = sorted(T.ROWS)
+REQUIRED_CLASSES = tuple([fn + ":valid" for g in T.GROUPS for fn in g[1] if fn not in T.NO_VALID] +
+                         ["class:length", "class:release", "class:overlap", "class:privkey", "class:pubkey", "class:generator",
+                          "class:level", "class:params", "class:identifier", "release-check"])
 
 
 RULE = ("case = (function row, repetition, one violated argument); the row builds a fully valid call on exact-size heap "
